@@ -4,7 +4,7 @@
     with what the translator regenerated from /repo (Gen/RouteConsts.v). *)
 From Coq Require Import List NArith Bool String.
 From Verif Require Import Lib.Bytes Sni.Wire Sni.Route Sni.RouteProofs Sni.Mailbox
-  Sni.MailboxProofs Sni.RouteGen Gen.RouteConsts Gen.WireSchema Sni.WireGen.
+  Sni.MailboxProofs Sni.MailboxConc Sni.RouteGen Gen.RouteConsts Gen.WireSchema Sni.WireGen.
 Import ListNotations.
 Local Open Scope N_scope.
 
@@ -93,6 +93,64 @@ Theorem C02_cleanup_local : forall o h o' v,
 Proof. exact cleanup_local. Qed.
 Print Assumptions C02_cleanup_local.
 
+(** ** The same for every reachable state of the interleaving semantics
+
+    Any number of dial threads ([next id; newBox; RPC; receive; cleanUp], the
+    cleanUp deferred on every path), of arriving side websockets with
+    arbitrary id/key, and of session-table handlers; any schedule; one
+    critical section per step (atomic by the lock skeleton, [C02_source_tie]). *)
+
+Theorem C02_conc_ids_unique : forall ks s i j ti tj a,
+  reach ks s ->
+  nth_error (sy_threads s) i = Some ti -> nth_error (sy_threads s) j = Some tj ->
+  th_id ti = Some a -> th_id tj = Some a -> i = j.
+Proof. exact conc_ids_unique. Qed.
+Print Assumptions C02_conc_ids_unique.
+
+Theorem C02_conc_mailbox_isolation : forall ks s i t key a x,
+  reach ks s ->
+  nth_error (sy_threads s) i = Some t ->
+  th_kind t = KDial key -> th_id t = Some a -> th_got t = Some x ->
+  exists j tj, nth_error (sy_threads s) j = Some tj /\
+               th_kind tj = KDeliver a key x /\ th_pc tj = 1%nat.
+Proof. exact conc_mailbox_isolation. Qed.
+Print Assumptions C02_conc_mailbox_isolation.
+
+(** No hypothesis on ids or keys any more: the ids are distinct because the
+    dials take them from the locked counter.  Within one registration the id
+    alone keeps honest deliveries apart, whatever the keys are. *)
+Theorem C02_conc_no_misdelivery : forall ks s i t key a x,
+  reach ks s -> honest s ->
+  nth_error (sy_threads s) i = Some t ->
+  th_kind t = KDial key -> th_id t = Some a -> th_got t = Some x ->
+  N.to_nat x = i.
+Proof. exact conc_no_misdelivery. Qed.
+Print Assumptions C02_conc_no_misdelivery.
+
+Theorem C02_conc_session_isolation : forall ks s i t id c,
+  reach ks s ->
+  nth_error (sy_threads s) i = Some t ->
+  th_kind t = KTable (CGet id) -> th_obs t = Some (WFound c) ->
+  c_sess c = id /\
+  exists j tj, nth_error (sy_threads s) j = Some tj /\ th_kind tj = KTable (CAdd c) /\
+               th_pc tj = 1%nat.
+Proof. exact conc_session_isolation. Qed.
+Print Assumptions C02_conc_session_isolation.
+
+(** What the key adds: across registrations.  Ids restart at 0 for every
+    endpoint client and the side websocket is routed by name, so a websocket
+    answering a dial of the previous registration can carry an id in use by
+    the new one; it carries the old key, and is refused. *)
+Theorem C02_stale_generation_refused : forall ks s2 i t k1 k2 a h tag,
+  reach ks s2 ->
+  nth_error (sy_threads s2) i = Some t ->
+  th_kind t = KDial k2 -> th_id t = Some a -> th_h t = Some h ->
+  map_get a (o_map (sy_office s2)) = Some h ->
+  k1 <> k2 ->
+  step (sy_office s2) (ODeliver a k1 tag) = (sy_office s2, VMismatch).
+Proof. exact stale_generation_refused. Qed.
+Print Assumptions C02_stale_generation_refused.
+
 (** ** The endpoint's session table *)
 
 Theorem C02_session_isolation : forall ps t vs id c t',
@@ -130,10 +188,13 @@ Theorem C02_source_tie :
   list_eqb dial_step_eqb gen_dial_steps deployed_dial_steps = true /\
   reject_before_dialb = true /\
   list_eqb String.eqb gen_host_conn_calls deployed_host_conn_calls = true /\
+  (gen_lock_violations = [] /\
+   list_eqb String.eqb gen_locked_methods expected_locked_methods = true) /\
   src_diff gen_route_src frozen_route_src = [].
 Proof.
   exact (conj gen_rejected_steps_eq (conj gen_suffixes_eq (conj gen_dial_steps_deployed
-          (conj gen_reject_before_dial (conj gen_host_conn_calls_deployed gen_route_src_frozen))))).
+          (conj gen_reject_before_dial (conj gen_host_conn_calls_deployed
+            (conj gen_lock_skeleton gen_route_src_frozen)))))).
 Qed.
 Print Assumptions C02_source_tie.
 
@@ -199,3 +260,28 @@ Example C02_nonvacuous_sessions :
   snd (crun ctable_init [CAdd (mkC 3 100); CAdd (mkC 4 101); CAdd (mkC 3 102); CGet 3; CRemove 3; CGet 3; CGet 4])
   = [WOk; WOk; WConflict; WFound (mkC 3 100); WOk; WNotFound; WFound (mkC 4 101)].
 Proof. reflexivity. Qed.
+
+(** Two registrations of one name.  In the new one (this office) the first
+    dial has id 0 and key 78 and is waiting; the websocket answering the first
+    dial of the old registration arrives with id 0 and the old key 77: refused,
+    and the dial then receives the right connection.  With equal keys the
+    stale connection would have been accepted: only the key tells the
+    registrations apart. *)
+Definition ex_regen : list tkind := [KDial 78; KDeliver 0 77 9; KDeliver 0 78 0].
+
+Example C02_nonvacuous_generations :
+  exists s3 s4 s6,
+    sys_run (sys_init ex_regen) [(0, 0); (0, 0); (0, 0)]%nat = Some s3 /\
+    sys_step s3 1 0 = Some s4 /\             (* the stale websocket *)
+    sy_office s4 = sy_office s3 /\
+    sys_run s4 [(2, 0); (0, 0)]%nat = Some s6 /\
+    option_map th_got (nth_error (sy_threads s6) 0) = Some (Some 0) /\
+    reach ex_regen s6 /\
+    fst (step (sy_office s3) (ODeliver 0 78 9)) <> sy_office s3.
+Proof.
+  do 3 eexists. split; [reflexivity|]. split; [reflexivity|]. split; [reflexivity|].
+  split; [reflexivity|]. split; [reflexivity|]. split.
+  - apply (sys_run_reach ex_regen [(0, 0); (0, 0); (0, 0); (1, 0); (2, 0); (0, 0)]%nat (sys_init ex_regen));
+      [apply reach_init|reflexivity].
+  - discriminate.
+Qed.
